@@ -217,6 +217,21 @@ def tex_atom(a, inmath=False):
         kind = REGS[a['reg']][1]
         # \relax: a register that follows a number would be multiplied into it (C05's known finding int:register-after-decimal)
         return '\\%s=%d%s\\relax ' % (a['reg'], a['v'], '' if kind == 'count' else 'pt')
+    if k == 'envparam':
+        # a style parameter assigned and / or read INSIDE an environment (where the environment's local macros are in scope)
+        w = ('\\%s=%dpt\\relax ' % (a['reg'], a['v'])) if a.get('write') else ''
+        r = ('\\ifdim\\%s>1pt 1\\else 0\\fi ' % a['reg']) if a.get('read') else ''
+        return {'eqnarray': '\\begin{eqnarray}%sa&=&b %s\\\\c&=&d\\end{eqnarray} ',
+                'eqnarray*': '\\begin{eqnarray*}%sa&=&b %s\\\\c&=&d\\end{eqnarray*} ',
+                'tabular': '\\begin{tabular}{lc}%sa&b %s\\\\c&d\\end{tabular} ',
+                'center': '\\begin{center}%smid %s\\end{center} ',
+                'quote': '\\begin{quote}%ssaid %s\\end{quote} '}[a['e']] % (w, r)
+    if k == 'numberwithin':
+        return '\\numberwithin{%s}{%s}' % (a['t'], a['c'])
+    if k == 'appendix':
+        return '\\appendix '
+    if k == 'who':
+        return '\\who '
     if k == 'paramreg':
         # a glue register given by another register, optionally signed: \parskip=-\baselineskip
         return '\\%s=%s\\%s\\relax ' % (a['reg'], a.get('sign', ''), a['src'])
@@ -292,6 +307,8 @@ def source(doc):
             s += '\\usepackage[%s]{%s}' % (p[1], p[0])
         else:
             s += '\\usepackage{%s}' % p
+    if doc.get('input'):
+        s += '\\input{%s}' % doc['input']
     s += '\\begin{document}\\newcounter{obs}'
     s += tex_atoms(doc['body'])
     if doc.get('end', True):
@@ -318,6 +335,20 @@ def tok_atoms(atoms, out, reads, cur=None, inbox=False):
             out.append([9, reg_cell(a['reg']), val_code(a['reg'], a['v'])])
             if not inbox:
                 cur[a['reg']] = val_code(a['reg'], a['v'])
+        elif k == 'envparam':
+            out.append([8, 2])
+        elif k == 'who':
+            out.append(0)
+        elif k == 'appendix':
+            out.append([8, 1])
+            cur['@appendix'] = True
+        elif k == 'numberwithin':
+            out.append([8, 2])
+            # after \appendix the name the<counter> is bound to the module-level class appendix.the<counter> (shared)
+            tgt = {'article': 'section'}.get(cur.get('@cls'), 'chapter')
+            nm = 'appendix.the%s.format' % tgt
+            if cur.get('@appendix') and a['t'] == tgt and cell(nm) is not None:
+                out.append([11, cell(nm), 1])
         elif k == 'paramreg':
             v = (cur.get(a['src']) or 0) * (-1 if a.get('sign') == '-' else 1)
             out.append([9, reg_cell(a['reg']), v])
@@ -328,6 +359,8 @@ def tok_atoms(atoms, out, reads, cur=None, inbox=False):
                 out += [4, 6, [8, 1], 6, 5, [8, 1]]
             else:
                 out += [[8, 3], [8, 1], [8, 1]]
+                if a['what'] == 'section':
+                    appendix_read(cur, out, reads)
         elif k == 'setlen':
             # \setlength only parses its two arguments in plasTeX (its invoke is commented out in Base/LaTeX/Lengths.py):
             # DimenCommand.setlength is reached through the Python API only, so no cell is written here
@@ -363,6 +396,7 @@ def tok_atoms(atoms, out, reads, cur=None, inbox=False):
             out.append(7)
         elif k == 'section':
             out.append([8, 3])
+            appendix_read(cur, out, reads)
         elif k == 'index':
             out.append([8, 1])
         elif k == 'printindex':
@@ -413,6 +447,13 @@ def tok_atoms(atoms, out, reads, cur=None, inbox=False):
             raise ValueError(a)
 
 
+def appendix_read(cur, out, reads):
+    """a section after \\appendix is numbered by the shared class appendix.thesection (article): its result depends on that cell"""
+    if cur.get('@appendix') and cur.get('@cls') == 'article' and cell('appendix.thesection.format') is not None:
+        out.append([12, cell('appendix.thesection.format')])
+        reads.append(('weak', 'appendix.thesection.format'))
+
+
 def val_code(reg, v):
     kind = REGS[reg][1]
     return v if kind == 'count' else v * 65536
@@ -451,7 +492,9 @@ def doc_tokens(doc):
             letter, v = COLTYPE_PKGS[name]
             out.append([11, [row_of('ColumnType.columnTypes'), ord(letter)], v])
     out.append([8, 1])      # \newcounter{obs}
-    tok_atoms(doc['body'], out, reads)
+    cur = {r: REGS[r][2] for r in REGS}
+    cur['@cls'] = doc['cls']
+    tok_atoms(doc['body'], out, reads, cur)
     return out, reads
 
 
@@ -528,7 +571,7 @@ def rand_atom(rng, depth, feats, open_ok=False):
     if f == 'math' and depth > 0:
         body = [dict(m='sym', w=rng.choice('xyz'))]
         if rng.random() < 0.4:
-            inner = [x for x in feats if x not in ('section', 'tabular', 'verse', 'printindex', 'env', 'labelled')]
+            inner = [x for x in feats if x not in ('section', 'tabular', 'verse', 'printindex', 'env', 'labelled', 'envparam', 'numberwithin')]
             body.append(dict(m='box', body=rand_atoms(rng, depth - 1, inner, rng.randint(1, 2)), closed=True))
             if rng.random() < 0.5:
                 body.append(dict(m='sym', w='w'))
@@ -543,6 +586,12 @@ def rand_atom(rng, depth, feats, open_ok=False):
         return dict(a='index', w=rng.choice(WORDS))
     if f == 'tabular':
         return dict(a='tabular', spec=rng.choice(['lc', 'rl', 'Zl', 'cZ', '|l|Z|', 'lY']))
+    if f == 'envparam':
+        return dict(a='envparam', e=rng.choice(['eqnarray', 'eqnarray*', 'tabular', 'center', 'quote']),
+                    reg=rng.choice(['jot', 'jot', 'arraycolsep', 'arrayrulewidth', 'doublerulesep', 'mathindent', 'itemsep', 'fboxrule']),
+                    v=rng.choice([5, 12]), write=rng.random() < 0.6, read=rng.random() < 0.7)
+    if f == 'numberwithin':
+        return dict(a='numberwithin', t=rng.choice(['section', 'equation', 'figure', 'section']), c=rng.choice(['part', 'section', 'part']))
     if f == 'paramreg':
         reg, src = rng.choice([('parskip', 'baselineskip'), ('baselineskip', 'parskip'), ('parskip', 'baselineskip')])
         return dict(a='paramreg', reg=reg, src=src, sign=rng.choice(['', '-']))
@@ -577,11 +626,11 @@ def open_tail(rng, depth=2):
     return [dict(a='list', kind='itemize', body=[dict(a='text', w='o'), dict(a='math', disp=False, body=[dict(m='sym')], closed=False)], closed=False)]
 
 
-BASE_FEATS = ['paramreg', 'labelled', 'env', 'env', 'env', 'text', 'text', 'param', 'setlen', 'read', 'read', 'list', 'list', 'math', 'math', 'macro', 'section', 'index', 'tabular',
+BASE_FEATS = ['envparam', 'envparam', 'paramreg', 'labelled', 'env', 'env', 'env', 'text', 'text', 'param', 'setlen', 'read', 'read', 'list', 'list', 'math', 'math', 'macro', 'section', 'index', 'tabular',
               'openout', 'newif', 'newcount', 'ref']
 
 
-def rand_doc(rng, allow_open=True, role='A'):
+def rand_doc(rng, allow_open=True, role='A', allow_file=True):
     cls = rng.choice(['article', 'book', 'book', 'report', 'report'])
     pkgs = []
     feats = list(BASE_FEATS)
@@ -597,14 +646,27 @@ def rand_doc(rng, allow_open=True, role='A'):
         pkgs.append(['natbib', 'sectionbib'])
     if rng.random() < 0.2:
         pkgs.append(rng.choice(['vfcoltype', 'vfcoltyper', 'vfcoltypey', 'vfcoltypeyb', 'vfcoltypeyc', 'vfcoltypezb', 'vfcoltypezw']))
+    if rng.random() < 0.15:
+        pkgs.append('amsmath')
+        feats += ['numberwithin', 'numberwithin', 'section', 'section']
     body = rand_atoms(rng, 2, feats, rng.randint(2, 6))
+    body = [a for a in body if not (a['a'] == 'numberwithin' and a['t'] == a['c'])]
+    if any(a['a'] == 'numberwithin' for a in body) and rng.random() < 0.25:
+        body.insert(0, dict(a='appendix'))
+    if any(a['a'] == 'numberwithin' for a in body):
+        body.append(dict(a='section', t=rng.choice(WORDS)))
     if any(a['a'] == 'index' for a in body) and rng.random() < 0.8:
         body.append(dict(a='printindex'))
     end = True
     if allow_open and rng.random() < 0.3:
         body += open_tail(rng)
         end = False
-    return dict(cls=cls, pkgs=pkgs, body=body, end=end)
+    doc = dict(cls=cls, pkgs=pkgs, body=body, end=end)
+    if allow_file and rng.random() < 0.15:
+        # processed from a file in a directory of its own; \input{defs} finds defs.tex next to the file or in the working directory
+        doc.update(file=rng.choice(['da', 'db', 'dc']), input='defs', owndefs=rng.random() < 0.5)
+        doc['body'].append(dict(a='who'))
+    return doc
 
 
 def D(cls, body, pkgs=(), end=True, **kw):
@@ -669,6 +731,20 @@ def hand_cases():
                 D('report', [lab('equation', 3), lab('item', 4)]), dict(render=True)))
     out.append(('rendered-labels-2', [D('article', [lab('figure', 1, 'one'), lab('section', 2, 'second')]), D('book', [lab('item', 5)])],
                 D('book', [lab('item', 3), lab('equation', 4), lab('section', 6, 'own')]), dict(render=True)))
+    ep = lambda e, reg, v=None, read=False: dict(a='envparam', e=e, reg=reg, v=v or 0, write=v is not None, read=read)   # noqa
+    out.append(('register-inside-environment', [D('report', [ep('eqnarray', 'jot', 12), ep('tabular', 'arrayrulewidth', 5), ep('eqnarray*', 'arraycolsep', 12)])],
+                D('report', [ep('eqnarray', 'jot', None, True), ep('tabular', 'arrayrulewidth', None, True), ep('eqnarray*', 'arraycolsep', None, True)])))
+    nw = lambda t, c: dict(a='numberwithin', t=t, c=c)   # noqa
+    secs = [dict(a='section', t='one'), dict(a='labelled', what='section', n=9, w='two')]
+    out.append(('numberwithin-then-article', [D('article', [nw('section', 'part')] + secs, pkgs=['amsmath'])], D('article', secs)))
+    out.append(('numberwithin-then-book', [D('book', [nw('section', 'part'), nw('equation', 'section')] + secs, pkgs=['amsmath'])],
+                D('book', [dict(a='raw', s='\\chapter{C}')] + secs + [dict(a='env', e='equation', n=3)])))
+    out.append(('appendix-numberwithin', [D('article', [dict(a='appendix'), nw('section', 'part')] + secs, pkgs=['amsmath'])],
+                D('article', [dict(a='appendix')] + secs)))
+    out.append(('input-own-defs-then-shared', [D('report', [dict(a='who'), txt('a')], file='da', input='defs', owndefs=True)],
+                D('report', [dict(a='who'), txt('b')], file='db', input='defs', owndefs=False)))
+    out.append(('input-shared-then-string', [D('report', [dict(a='who')], file='da', input='defs', owndefs=False)],
+                D('report', [dict(a='who')], input='defs')))
     out.append(('natbib-citealias', [D('report', [dict(a='citealias', k='k'), txt('x')], pkgs=['natbib'])],
                 D('report', [dict(a='raw', s='\\citetalias{k} '), txt('y')], pkgs=['natbib'])))
     out.append(('newif-newcount', [D('report', [dict(a='newif'), dict(a='newcount', v=4)])], D('report', [dict(a='newif'), dict(a='newcount', v=6)])))
@@ -762,7 +838,8 @@ def streams(rng, tier, boost):
         for name, As, B in [h[:3] for h in hand_cases()[:8]]:
             out.append(('exec-crosscheck', dict(kind='seq', name=name, docs=As, B=B, exec_alone=True)))
         for i in range(40):
-            out.append(('exec-crosscheck', dict(kind='seq', name='rnd', docs=[rand_doc(rng)], B=rand_doc(rng, allow_open=False), exec_alone=True)))
+            out.append(('exec-crosscheck', dict(kind='seq', name='rnd', docs=[rand_doc(rng, allow_file=False)],
+                                                B=rand_doc(rng, allow_open=False, allow_file=False), exec_alone=True)))
     return out
 
 
@@ -828,9 +905,10 @@ SWEEP_SKIP_MODULES = ('plasTeX.Logging',)
 
 
 def sweep():
-    """every own attribute of every class of every loaded plasTeX module, every module-level non-callable"""
+    """every own attribute of every class of every loaded plasTeX module, every module-level non-callable; the environment variable
+    TeX.kpsewhich writes"""
     import types
-    snap = {}
+    snap = {'plasTeX.TeX:os.environ[TEXINPUTS]': repr(os.environ.get('TEXINPUTS'))}
     for mname, mod in sorted(sys.modules.items()):
         if mod is None or not (mname == 'plasTeX' or mname.startswith('plasTeX.')) or mname in SWEEP_SKIP_MODULES:
             continue
@@ -906,6 +984,27 @@ def canon_xml(x):
     return re.sub(r'\ba\d{10}\b', sub, x)
 
 
+def file_layout(doc, src):
+    """<work>/defs.tex (shared), <work>/<dir>/main.tex and, for a document with its own definitions, <work>/<dir>/defs.tex.
+    <work> depends on the worker only, so that the sequence and B alone see the same absolute names"""
+    work = os.path.join(VERIF, 'build', 'C17', 'files', str(os.getppid()))
+    os.makedirs(work, exist_ok=True)
+    with open(os.path.join(work, 'defs.tex'), 'w') as f:
+        f.write('\\newcommand{\\who}{shared}\n')
+    if doc.get('file'):
+        dd = os.path.join(work, doc['file'])
+        os.makedirs(dd, exist_ok=True)
+        with open(os.path.join(dd, 'main.tex'), 'w') as f:
+            f.write(src)
+        own = os.path.join(dd, 'defs.tex')
+        if doc.get('owndefs'):
+            with open(own, 'w') as f:
+                f.write('\\newcommand{\\who}{own-%s}\n' % doc['file'])
+        elif os.path.exists(own):
+            os.remove(own)
+    return work
+
+
 def build_objects(doc, pkgdir):
     from plasTeX.TeX import TeX, TeXDocument
     d = TeXDocument()
@@ -922,10 +1021,25 @@ def process_one(doc, pkgdir, prebuilt=None, render=False):
     if render:
         return process_rendered(doc, pkgdir)
     src = source(doc)
-    d, tex = prebuilt or build_objects(doc, pkgdir)
-    tex.input(src)
+    cwd = os.getcwd()
+    work = None
+    if doc.get('input') or doc.get('file'):
+        work = file_layout(doc, src)
+    if doc.get('file'):
+        from plasTeX.TeX import TeX
+        d = (prebuilt or build_objects(doc, pkgdir))[0]
+        os.chdir(work)
+        tex = TeX(d, file=os.path.join(doc['file'], 'main.tex'))
+    else:
+        d, tex = prebuilt or build_objects(doc, pkgdir)
+        if work:
+            os.chdir(work)
+        tex.input(src)
     try:
-        tex.parse()
+        try:
+            tex.parse()
+        finally:
+            os.chdir(cwd)
     except Exception as e:    # the document is not processed to completion
         return 'raise', '%s: %s' % (type(e).__name__, str(e)[:120]), d
     try:
